@@ -230,8 +230,9 @@ func TestVerifyRequest(t *testing.T) {
 		var verr error
 		o := rt.GuardLite(func() { verr = att.VerifyRequest(req, blind, clientKey, anon) })
 		if o.Panic != nil {
-			s.Class("panicked(reported-by-C03)")
-			verr = fmt.Errorf("panic")
+			// "every other request is answered with an error": a panic is not an answer
+			rt.Fail(t, "C06/panic/"+class, "VerifyRequest panicked (%v) on a request of class %s", o.Panic, class)
+			return
 		}
 		if class == "honest" || class == "blind-leading-zero" || class == "sig-malleated" {
 			if !ok {
